@@ -93,6 +93,17 @@ let () =
       for _ = 1 to int_of_nat r.frames_run do put (ai a 1) (ok (sys_run_frame (get (ai a 1)))) done;
       emit (Printf.sprintf "run returned frames=%d glfwTerminate=%d paClose=%d paTerminate=%d"
               (int_of_nat r.frames_run) (int_of_n g) (int_of_n pc) (int_of_n pt)));
+  register "gb.dbgser" (fun a ->
+      let b = Bytes.make 0x8000 '\000' in
+      Bytes.set b 0x100 '\x18'; Bytes.set b 0x101 '\xfe';
+      let (c, s) = ok (sys_new (R_cart.image_of_bytes b) true false) in
+      let s = List.fold_left (fun s (i, v) -> ok (sys_write s (n_of_int (0xc000 + i)) (n_of_int v))) s
+                (List.mapi (fun i v -> (i, v)) [0x3e; 0xf0; 0xe0; 0x01; 0x3c; 0x20; 0xfb; 0x18; 0xf7]) in
+      let c = { c with ra = n_of_int 1; sp = n_of_int 0xdfff; pc = n_of_int 0xc000 } in
+      let x = ref (c, s) in
+      for _ = 1 to ai a 1 do x := ok (sys_cycle !x) done;
+      let (_, s) = !x in
+      emit ("dbgser " ^ String.concat "" (List.rev_map (fun v -> Printf.sprintf "%02x" (int_of_n v)) s.s_serial)));
   register "gb.rundeadline" (fun a ->
       let (aud, vid) = flags (ai a 1) in
       let ((g, pc), pt) = cleanup_effects vid aud in
